@@ -13,7 +13,7 @@
 (*   C12_.. / C14_..  property lane: the property evaluated on what the     *)
 (*                    real code did (ghosts carried here)                   *)
 (*   STRICT_..        strict lane: observed step # Apply(pre, ev, a) of     *)
-(*                    spec/Oracle.tla with FIX = {} (drift, never a verdict)*)
+(*                    spec/Oracle.tla with the FIX set of the current tree (drift, no verdict)*)
 (***************************************************************************)
 EXTENDS Oracle, Json
 
@@ -39,14 +39,14 @@ WorkerOf(x) ==
     rpower |-> x.rpower, ds |-> x.ds, final |-> x.final ]
 
 FromLog(j, c) ==
-  [ h |-> j.h, c |-> c,
+  [ h |-> j.h, c |-> [c EXCEPT !.fd = j.afd], pw |-> j.powers, kfd |-> j.kfd, cfd |-> j.cfd,
     prices |-> [t \in TOKENS |->
                   LET P == {x \in Rng(j.prices) : x.t = t} IN
                   IF P = {} THEN [next |-> 1, list |-> <<>>]
                   ELSE LET x == One(P) IN [next |-> x.next, list |-> [i \in DOMAIN x.list |-> [r |-> x.list[i].r, p |-> x.list[i].p]]]],
     nonce |-> [k \in {<<x.v, x.f>> : x \in Rng(j.nonce)} |-> One({x \in Rng(j.nonce) : x.v = k[1] /\ x.f = k[2]}).n],
     rmsgs |-> [b \in {x.b : x \in Rng(j.rmsgs)} |-> MsgsOf(One({x \in Rng(j.rmsgs) : x.b = b}).msgs)],
-    rmIdx |-> j.rmIdx, rparams |-> Rng(j.rparams), rpIdx |-> j.rpIdx, vub |-> j.vub,
+    rmIdx |-> j.rmIdx, rparams |-> [b \in {x.b : x \in Rng(j.rparams)} |-> One({x \in Rng(j.rparams) : x.b = b}).fd], rpIdx |-> j.rpIdx, vub |-> j.vub,
     rounds |-> [f \in {x.f : x \in Rng(j.rounds)} |-> LET x == One({y \in Rng(j.rounds) : y.f = f}) IN [base |-> x.base, next |-> x.next, status |-> x.status]],
     aggs |-> [f \in {x.f : x \in Rng(j.aggs)} |-> WorkerOf(One({y \in Rng(j.aggs) : y.f = f}))],
     cmsgs |-> MsgsOf(j.cmsgs), cvu |-> j.cvu, cpu |-> j.cpu, upd |-> j.upd ]
@@ -55,7 +55,6 @@ FromLog(j, c) ==
 \* not apply (strict lane): more than one price source, validator set differs from the configuration
 Assumed(j, c) ==
   /\ ~j.agcNil
-  /\ DOMAIN j.powers = DOMAIN c.pw /\ \A v \in DOMAIN c.pw : j.powers[v] = c.pw[v]
   /\ \A x \in Rng(j.aggs) : x.nsrc <= 1 /\ \A r \in Rng(x.reports) : r.nsrc <= 1
 
 T(holds, tag) == IF holds THEN {} ELSE {tag}
@@ -77,7 +76,7 @@ C12State(post) ==
 \* the accepted reports of that round (including this tx) carry a super-majority, and the recorded
 \* value is a value a super-majority agreed on for one source round
 C12Tx(pre, post, msgs, ok, subs) ==
-  LET c == pre.c
+  LET c == [pre.c EXCEPT !.pw = pre.pw]
       rec == UNION {{[t |-> t, e |-> e] : e \in NewEntries(pre, post, t)} : t \in TOKENS}
       fOf(t) == {f \in FeedersOfTok(c, t) : \E i \in DOMAIN msgs : msgs[i].f = f}
   IN T(\A x \in rec : ok /\ fOf(x.t) # {}, "C12_RecordedByRejectedTx") \cup
@@ -111,15 +110,15 @@ RelevantWorker(w) == [w EXCEPT !.fN = [v \in DOMAIN @ |-> Len(@[v])]]
 WorkerOr0(s, f) == IF f \in DOMAIN s.aggs THEN RelevantWorker(s.aggs[f]) ELSE RelevantWorker(W0)
 \* messages of validator v for feeder f in the part of the persisted log that recache replays
 Replayed(post, f, v) ==
-  LET lo == IF post.vub >= post.h - DefaultMaxNonce + 1 THEN post.vub + 1 ELSE post.h - DefaultMaxNonce + 1 IN
+  LET lo == ReplayFrom(post) IN
   UNION {{<<b, i>> : i \in {k \in DOMAIN post.rmsgs[b] : post.rmsgs[b][k].f = f /\ post.rmsgs[b][k].v = v}} :
             b \in {x \in DOMAIN post.rmsgs : x >= lo /\ x < post.h}}
 \* messages for feeder f that are stored for a block of the feeder's current window but lie before the
 \* first replayed block (the replay window is computed from the package default MaxNonce = 3)
 NotReplayed(post, f) ==
-  LET lo == IF post.vub >= post.h - DefaultMaxNonce + 1 THEN post.vub + 1 ELSE post.h - DefaultMaxNonce + 1 IN
+  LET lo == ReplayFrom(post) IN
   {b \in DOMAIN post.rmsgs : b < lo /\ b > post.rounds[f].base /\ \E i \in DOMAIN post.rmsgs[b] : post.rmsgs[b][i].f = f}
-CauseOf(twin, post, f, l7, l7m, l26) ==
+CauseOf(twin, post, f, l7, l7m, l26, fs) ==
   LET c == post.c IN
   IF f \in DOMAIN twin.rounds /\ f \notin DOMAIN post.rounds THEN
      IF twin.rounds[f].status = StatusOpen THEN {"ROUNDS_NOT_REBUILT"}
@@ -128,7 +127,7 @@ CauseOf(twin, post, f, l7, l7m, l26) ==
   ELSE IF f \notin DOMAIN twin.rounds THEN {}
   ELSE IF twin.rounds[f].status = StatusClosed /\ post.rounds[f].status = StatusOpen THEN
      IF twin.prices[TokOf(c, f)].next = twin.rounds[f].next + 1 /\ HH(twin) - twin.rounds[f].base < c.mn
-     THEN {"FINALISED_ROUND_REOPENED"}
+     THEN IF <<f, twin.rounds[f].base>> \in fs THEN {"FORCE_SEALED_ROUND_REOPENED"} ELSE {"FINALISED_ROUND_REOPENED"}
      ELSE IF f \in l7 THEN {"REJECTED_TX_CLOSED_ROUND_REOPENED"} ELSE {"CLOSED_ROUND_REOPENED"}
   ELSE IF twin.rounds[f].status = StatusOpen /\ post.rounds[f].status = StatusClosed THEN {"OPEN_ROUND_CLOSED"}
   ELSE IF twin.rounds[f] # post.rounds[f] THEN {"ROUND_DIFFERS"}
@@ -136,7 +135,7 @@ CauseOf(twin, post, f, l7, l7m, l26) ==
      IF \E v \in VALS : Cardinality(Replayed(post, f, v)) >= 2 THEN {"SECOND_MESSAGE_DROPPED"}
      ELSE IF f \in l7m THEN {"REJECTED_TX_REPORTS_LOST"}
      ELSE IF f \in l26 THEN {"REPLAY_LOG_PRUNED_EARLY"}
-     ELSE IF post.c.mn > DefaultMaxNonce /\ NotReplayed(post, f) # {} THEN {"REPLAY_WINDOW_TOO_SHORT"}
+     ELSE IF NotReplayed(post, f) # {} THEN {"REPLAY_WINDOW_TOO_SHORT"}
      ELSE {"AGGREGATION_NOT_REBUILT"}
   ELSE {}
 
@@ -153,7 +152,7 @@ DivF(post, twin) ==
 (***************************************************************************)
 (* strict lane                                                             *)
 (***************************************************************************)
-Fields == {"h", "prices", "nonce", "rmsgs", "rmIdx", "rparams", "rpIdx", "vub", "rounds", "aggs", "cmsgs", "cvu", "cpu", "upd"}
+Fields == {"h", "c", "pw", "prices", "nonce", "rmsgs", "rmIdx", "rparams", "rpIdx", "vub", "kfd", "rounds", "aggs", "cmsgs", "cvu", "cpu", "cfd", "upd"}
 StrictTags(pre, post, ev, a, ok, j) ==
   LET r == Apply(pre, ev, a) IN
   T(Assumed(j, pre.c), "STRICT_assumption_" \o ev) \cup
@@ -163,7 +162,7 @@ StrictTags(pre, post, ev, a, ok, j) ==
 (***************************************************************************)
 (* replay                                                                  *)
 (***************************************************************************)
-R0 == [restarted |-> FALSE, cause |-> [f \in FEEDERS |-> {}], at |-> <<>>, l7 |-> {}, l7m |-> {}, rej |-> {}, l26 |-> {}]
+R0 == [restarted |-> FALSE, cause |-> [f \in FEEDERS |-> {}], at |-> <<>>, l7 |-> {}, l7m |-> {}, rej |-> {}, l26 |-> {}, fs |-> {}]
 
 Init == l = 1 /\ L = [h |-> 0] /\ G = [subs |-> {}] /\ R = R0
 
@@ -202,7 +201,7 @@ Next ==
      ELSE IF line.ev = "Tx" THEN
        LET post == FromLog(line.st, L.c)
            twin == FromLog(line.cst, L.c)
-           c    == L.c
+           c    == [L.c EXCEPT !.pw = L.pw]
            a    == [msgs |-> [i \in DOMAIN line.a.msgs |-> [v |-> line.a.msgs[i].v, f |-> line.a.msgs[i].f, base |-> line.a.msgs[i].base,
                                 nonce |-> line.a.msgs[i].nonce, ps |-> [k \in DOMAIN line.a.msgs[i].ps |-> [d |-> line.a.msgs[i].ps[k].d, p |-> line.a.msgs[i].ps[k].p]]]]]
            msgsF == {a.msgs[i].f : i \in DOMAIN a.msgs}
@@ -224,15 +223,41 @@ Next ==
                    StrictTags(L, post, "Tx", a, line.ok, line.st)
        IN /\ L' = post /\ G' = g2 /\ R' = r2
           /\ Emit(l, "Tx", tags, r2, post, twin, fin, msgsF)
+     ELSE IF line.ev = "Upd" THEN
+       LET post == FromLog(line.st, L.c)
+           twin == FromLog(line.cst, L.c)
+           a    == [f |-> line.a.f, end |-> line.a.end]
+           tags == C12State(post) \cup
+                   T(\A t \in TOKENS : post.prices[t] = L.prices[t], "C12_RecordedByRejectedTx") \cup
+                   (IF R.restarted THEN C14Tags(post, twin, line.ok, line.cok, line.st.apphash = line.cst.apphash) ELSE {}) \cup
+                   StrictTags(L, post, "Upd", a, line.ok, line.st)
+       IN /\ L' = post /\ G' = G /\ R' = R
+          /\ Emit(l, "Upd", tags, R, post, twin, NoFin, {})
+     ELSE IF line.panic THEN
+       \* C11: BeginBlock / EndBlock / Commit panicked (the driver recovered it): the chain would halt here.
+       \* The line carries no new projection; the behaviour ends.
+       /\ L' = L /\ G' = G /\ R' = R
+       /\ LET a == [restart |-> line.a.restart,
+                    vu |-> [v \in {x.v : x \in Rng(line.a.vu)} |-> One({x \in Rng(line.a.vu) : x.v = v}).w]]
+              \* diagnosis: the restart found no logged params older than its first replayed block
+              E == EndBlock(L, a.vu)
+              noParams == a.restart /\ ReplayFrom(E) < E.h /\ ~\E b \in DOMAIN E.rparams : b < ReplayFrom(E)
+          IN PrintT("TAG " \o ToJson([l |-> l, ev |-> "EndBlock",
+                       tags |-> {"C11_Halt"} \cup T(Apply(L, "EndBlock", a).err = "PANIC", "STRICT_result_EndBlock"),
+                       info |-> [halt |-> line.err, h |-> L.h, restart |-> line.a.restart, at |-> R.at, mn |-> L.c.mn,
+                                 noParamsBeforeReplay |-> noParams, rpIdx |-> E.rpIdx, rparams |-> DOMAIN E.rparams]]))
      ELSE
        LET post == FromLog(line.st, L.c)
            twin == FromLog(line.cst, L.c)
-           a    == [restart |-> line.a.restart]
+           a    == [restart |-> line.a.restart,
+                    vu |-> [v \in {x.v : x \in Rng(line.a.vu)} |-> One({x \in Rng(line.a.vu) : x.v = v}).w]]
            \* lead L26: a block of the replay log that is still inside the window (b > h - MaxNonce) disappears
            gone == {b \in DOMAIN L.rmsgs : b \notin DOMAIN post.rmsgs /\ b > L.h - L.c.mn}
-           r1   == [R EXCEPT !.l26 = @ \cup UNION {{L.rmsgs[b][i].f : i \in DOMAIN L.rmsgs[b]} : b \in gone}]
+           \* rounds (feeder, base) that were open and are closed by an EndBlock that saw validator updates (force seal)
+           fsN  == IF a.vu = <<>> THEN {} ELSE {<<f, L.rounds[f].base>> : f \in {x \in DOMAIN L.rounds : L.rounds[x].status = StatusOpen}}
+           r1   == [R EXCEPT !.l26 = @ \cup UNION {{L.rmsgs[b][i].f : i \in DOMAIN L.rmsgs[b]} : b \in gone}, !.fs = @ \cup fsN]
            r2   == IF a.restart
-                   THEN [r1 EXCEPT !.restarted = TRUE, !.cause = [f \in FEEDERS |-> @[f] \cup CauseOf(twin, post, f, r1.l7, r1.l7m, r1.l26)], !.at = Append(@, post.h)]
+                   THEN [r1 EXCEPT !.restarted = TRUE, !.cause = [f \in FEEDERS |-> @[f] \cup CauseOf(twin, post, f, r1.l7, r1.l7m, r1.l26, r1.fs)], !.at = Append(@, post.h)]
                    ELSE r1
            tags == C12State(post) \cup C12End(L, post) \cup
                    (IF r2.restarted THEN C14Tags(post, twin, line.ok, line.cok, line.st.apphash = line.cst.apphash) ELSE {}) \cup
